@@ -1,15 +1,9 @@
-(* C08 -- Frame / Series level of the functional update interfaces, over observed values (SF.Value.val):
-   S_frame_* / S_series_* are the SPECIFICATIONS (cell maps on the flattened frame),
-   M_frame_*  are the IMPLEMENTATION MODELS (the block walks of SF.BlocksUpdate under the Frame constructor's
-   shape checks).  Row keys, label deletion and cell conversion are NumPy's (np.delete, a[k] = v, astype):
-   they are the simple list functions below, on both sides alike.  Models only, no proofs. *)
+(* C08 -- MODEL side of the Frame level of the functional update interfaces: M_frame_* are the block walks of
+   SF.BlocksUpdate under the Frame constructor's shape checks, on frames WITH a block layout.  The specifications and
+   comparators live in SF.UpdateFrameSpec (re-exported), which does not depend on the regenerated constants.
+   Models only, no proofs. *)
+Require Export SF.UpdateFrameSpec.
 Require Import SF.Prelude SF.PySlice SF.Dtype SF.Value SF.Blocks SF.UpdateSpec SF.BlocksUpdate Gen.Gen_c08.
-
-Definition zlen {B} (l : list B) : Z := Z.of_nat (length l).
-Definition zrange (n : Z) : list Z := map Z.of_nat (seq 0 (Z.to_nat n)).
-
-(* ---------- frames with a block layout ---------- *)
-Definition layout := list (Z * bool).          (* (width, is 2-D) per block *)
 
 Fixpoint build_tb (ly : layout) (cols : list (dtype * list val)) : tb val :=
   match ly with
@@ -19,9 +13,6 @@ Fixpoint build_tb (ly : layout) (cols : list (dtype * list val)) : tb val :=
       mk_block (match part with c :: _ => fst c | [] => DObj end) (negb is2d) (map snd part)
       :: build_tb r (skipn (Z.to_nat w) cols)
   end.
-
-Definition layout_of (t : tb val) : layout := map (fun b => (width b, negb (b_1d b))) t.
-Definition layout_eqb : layout -> layout -> bool := list_eqb (pair_eqb Z.eqb Bool.eqb).
 
 Record mframe := mk_mframe { mf_index : list val; mf_columns : list val; mf_blocks : tb val; mf_name : val }.
 Definition mf_oframe (f : mframe) : oframe :=
@@ -39,45 +30,6 @@ Definition frame_init (idx cols : list val) (t : tb val) (rows_reference : Z) (n
   else if negb (tb_rows t rows_reference =? zlen idx) then Err "ErrorInitFrame"
   else Ok (mk_oframe idx cols (flatten t) name, layout_of t).
 
-(* ---------- comparing an outcome with the observed one ---------- *)
-Definition res_agree {B C} (eqb : B -> C -> bool) (a : res B) (b : res C) : bool :=
-  match a, b with
-  | Ok x, Ok y => eqb x y
-  | Err _, Err _ => true            (* the property does not fix the exception class *)
-  | _, _ => false
-  end.
-
-Definition res_same {B C} (eqb : B -> C -> bool) (a : res B) (b : res C) : bool :=
-  match a, b with
-  | Ok x, Ok y => eqb x y
-  | Err e1, Err e2 => String.eqb e1 e2
-  | _, _ => false
-  end.
-
-Definition ofl_eqb (a b : oframe * layout) : bool := oframe_eqb (fst a) (fst b) && layout_eqb (snd a) (snd b).
-Definition of_eqb_ofl (a : oframe) (b : oframe * layout) : bool := oframe_eqb a (fst b).
-
-(* same frame up to the name (mask does not propagate the name: Series._extract_iloc_mask docstring, series.py:1450) *)
-Definition oframe_eqb_noname (a b : oframe) : bool :=
-  vlist_eqb (of_index a) (of_index b) && vlist_eqb (of_columns a) (of_columns b) &&
-  list_eqb col_eqb (of_cols a) (of_cols b).
-Definition ofl_eqb_noname (a b : oframe * layout) : bool := oframe_eqb_noname (fst a) (fst b) && layout_eqb (snd a) (snd b).
-Definition of_eqb_ofl_noname (a : oframe) (b : oframe * layout) : bool := oframe_eqb_noname a (fst b).
-
-Definition all_positions (k : option ckey) (n : Z) : res (list Z) :=
-  match k with None => Ok (zrange n) | Some k => key_positions k n end.
-
-(* =================== drop =================== *)
-Definition S_frame_drop (f : oframe) (rk ck : option ckey) : res oframe :=
-  match drop_positions rk (zlen (of_index f)), drop_positions ck (zlen (of_columns f)) with
-  | Ok rps, Ok cps =>
-      Ok (mk_oframe (S_drop_at (of_index f) rps) (S_drop_at (of_columns f) cps)
-                    (map (fun c => (fst c, S_drop_at (snd c) rps)) (S_drop_at (of_cols f) cps))
-                    (of_name f))
-  | Err e, _ => Err e
-  | _, Err e => Err e
-  end.
-
 Definition M_frame_drop (f : mframe) (rk ck : option ckey) : res (oframe * layout) :=
   match drop_positions rk (zlen (mf_index f)), drop_positions ck (zlen (mf_columns f)) with
   | Ok rps, Ok cps =>
@@ -87,28 +39,6 @@ Definition M_frame_drop (f : mframe) (rk ck : option ckey) : res (oframe * layou
                             (zlen (mf_index f))      (* shape_reference = the shape BEFORE the drop *)
                             (mf_name f)
       end
-  | Err e, _ => Err e
-  | _, Err e => Err e
-  end.
-
-Definition S_series_drop (s : oseries) (k : option ckey) : res oseries :=
-  match drop_positions k (zlen (os_index s)) with
-  | Ok ps => Ok (mk_oseries (S_drop_at (os_index s) ps) (S_drop_at (os_values s) ps) (os_dtype s) (os_name s))
-  | Err e => Err e
-  end.
-
-(* =================== mask =================== *)
-Definition row_pattern (rps : list Z) (n : Z) : list val := map (fun i => VBool (memz i rps)) (zrange n).
-Definition all_false (n : Z) : list val := map (fun _ => VBool false) (zrange n).
-
-Definition S_frame_mask (f : oframe) (rk ck : option ckey) : res oframe :=
-  let nr := zlen (of_index f) in
-  match all_positions rk nr, all_positions ck (zlen (of_columns f)) with
-  | Ok rps, Ok cps =>
-      Ok (mk_oframe (of_index f) (of_columns f)
-            (map (fun j => (DBool, map (fun i => VBool (memz i rps && memz j cps)) (zrange nr)))
-                 (zrange (zlen (of_cols f))))
-            VNone)
   | Err e, _ => Err e
   | _, Err e => Err e
   end.
@@ -124,92 +54,6 @@ Definition M_frame_mask (f : mframe) (rk ck : option ckey) : res (oframe * layou
       | Err e => Err e
       | Ok t' => frame_init (mf_index f) (mf_columns f) t' nr VNone
       end
-  end.
-
-Definition S_series_mask (s : oseries) (k : ckey) : res oseries :=
-  let n := zlen (os_index s) in
-  match key_positions k n with
-  | Ok ps => Ok (mk_oseries (os_index s) (row_pattern ps n) DBool VNone)
-  | Err e => Err e
-  end.
-
-(* =================== assign =================== *)
-(* Python == on cells, with the missing markers equal to themselves *)
-Definition cell_same (a b : val) : bool := val_eqb a b || py_val_eq a b.
-
-(* the supplied value *)
-Inductive aval :=
-| AElem (v : val)                                   (* scalar: broadcast to every addressed cell *)
-| AMat (m : list (list val))                        (* unlabelled, already broadcast by NumPy to the selection:
-                                                       m[j][i] = cell for the j-th addressed column (ascending) and
-                                                       the i-th element of the row key *)
-| ARows (idx vals : list val)                       (* Series aligned on the row labels (one addressed column) *)
-| ACols (idx vals : list val)                       (* Series aligned on the column labels (one addressed row) *)
-| AFrame (ridx cidx : list val) (cols : list (list val)).   (* Frame aligned on both *)
-
-Fixpoint lookup_label (l : val) (idx : list val) (vals : list val) : option val :=
-  match idx, vals with
-  | i :: ir, v :: vr => if val_eqb l i then Some v else lookup_label l ir vr
-  | _, _ => None
-  end.
-
-Fixpoint lookup_col (l : val) (idx : list val) (cols : list (list val)) : option (list val) :=
-  match idx, cols with
-  | i :: ir, c :: cr => if val_eqb l i then Some c else lookup_col l ir cr
-  | _, _ => None
-  end.
-
-Definition nthz {B} (l : list B) (i : Z) (d : B) : B := match nth_z l i with Some x => x | None => d end.
-
-(* the value supplied for cell (row position i, column position j); rps / cps in the order the spec pairs them *)
-Definition supplied (v : aval) (fill : val) (rlabels clabels : list val) (rps cps : list Z) (i j : Z) : val :=
-  match v with
-  | AElem x => x
-  | AMat m => match rankz j cps, rankz i rps with
-              | Some cj, Some ri => nthz (nthz m cj []) ri fill
-              | _, _ => fill
-              end
-  | ARows idx vals => match lookup_label (nthz rlabels i VNone) idx vals with Some x => x | None => fill end
-  | ACols idx vals => match lookup_label (nthz clabels j VNone) idx vals with Some x => x | None => fill end
-  | AFrame ridx cidx cols =>
-      match lookup_col (nthz clabels j VNone) cidx cols with
-      | Some c => match lookup_label (nthz rlabels i VNone) ridx c with Some x => x | None => fill end
-      | None => fill
-      end
-  end.
-
-(* SPEC as a relation on the observed result: labels and name kept; unaddressed columns identical (dtype and
-   cells); in addressed columns the unaddressed cells keep their value and the addressed cells hold the supplied
-   value (up to Python ==, the dtype of an addressed column being C07's business) *)
-Definition S_frame_assign_ok (f : oframe) (rk ck : option ckey) (v : aval) (fill : val) (out : oframe) : bool :=
-  let nr := zlen (of_index f) in
-  let nc := zlen (of_columns f) in
-  match all_positions rk nr, all_positions ck nc with
-  | Ok rps, Ok cps0 =>
-      let cps := sort_z cps0 in
-      vlist_eqb (of_index f) (of_index out) && vlist_eqb (of_columns f) (of_columns out) &&
-      val_eqb (of_name f) (of_name out) && (zlen (of_cols out) =? nc) &&
-      forallb (fun j =>
-        let old := nthz (of_cols f) j (DObj, []) in
-        let new := nthz (of_cols out) j (DObj, []) in
-        if memz j cps
-        then (zlen (snd new) =? nr) &&
-             forallb (fun i => cell_same (nthz (snd new) i VNone)
-                                 (if memz i rps then supplied v fill (of_index f) (of_columns f) rps cps i j
-                                  else nthz (snd old) i VNone)) (zrange nr)
-        else col_eqb old new) (zrange nc)
-  | _, _ => false
-  end.
-
-Definition S_series_assign_ok (s : oseries) (k : ckey) (v : aval) (fill : val) (out : oseries) : bool :=
-  let n := zlen (os_index s) in
-  match key_positions k n with
-  | Ok ps =>
-      vlist_eqb (os_index s) (os_index out) && val_eqb (os_name s) (os_name out) && (zlen (os_values out) =? n) &&
-      forallb (fun i => cell_same (nthz (os_values out) i VNone)
-                          (if memz i ps then supplied v fill (os_index s) [] ps [0] i 0
-                           else nthz (os_values s) i VNone)) (zrange n)
-  | Err _ => false
   end.
 
 (* MODEL of FrameAssignILoc.__call__ for unlabelled values / already aligned values (frame.py:7207-7253 +
@@ -244,99 +88,14 @@ Definition M_frame_assign_unit (f : mframe) (rk ck : option ckey) (as_array is_s
       end
   end.
 
-(* comparison for assign results: labels, layout, dtypes exact; cells up to Python == *)
-Definition col_same (a b : dtype * list val) : bool :=
-  dtype_eqb (fst a) (fst b) && list_eqb cell_same (snd a) (snd b).
-Definition ofl_same (a b : oframe * layout) : bool :=
-  vlist_eqb (of_index (fst a)) (of_index (fst b)) && vlist_eqb (of_columns (fst a)) (of_columns (fst b)) &&
-  list_eqb col_same (of_cols (fst a)) (of_cols (fst b)) && val_eqb (of_name (fst a)) (of_name (fst b)) &&
-  layout_eqb (snd a) (snd b).
-
-(* =================== astype =================== *)
-(* oracle: NumPy astype on cells for the conversions the generators use (int/bool -> float, bool -> int,
-   anything -> object keeps the Python object, anything -> str is not generated) *)
-Definition conv_val (d : dtype) (v : val) : val :=
-  match d, v with
-  | DFlt _, VInt z => VFlt z 1
-  | DFlt _, VBool b => VFlt (if b then 1 else 0) 1
-  | DInt _ _, VBool b => VInt (if b then 1 else 0)
-  | DBool, VInt z => VBool (negb (z =? 0))
-  | _, _ => v
-  end.
-
-Definition S_frame_astype (f : oframe) (ck : ckey) (d : dtype) : res oframe :=
-  match S_astype_columns (of_cols f) ck d (fun _ => map (conv_val d)) with
-  | Ok cols => Ok (mk_oframe (of_index f) (of_columns f) cols (of_name f))
-  | Err e => Err e
-  end.
-
 Definition M_frame_astype (f : mframe) (ck : ckey) (d : dtype) : res (oframe * layout) :=
   match M_astype_blocks d (fun _ => map (conv_val d)) (match ck with CInt _ => true | _ => false end) (mf_blocks f) ck with
   | Err e => Err e
   | Ok t' => frame_init (mf_index f) (mf_columns f) t' (zlen (mf_index f)) (mf_name f)
   end.
 
-(* =================== insert_before / insert_after =================== *)
-Definition S_frame_insert (f : oframe) (key : Z) (labels : list val) (cols : list (dtype * list val)) : oframe :=
-  mk_oframe (of_index f) (S_insert_at (of_columns f) key labels) (S_insert_at (of_cols f) key cols) (of_name f).
-
 Definition M_frame_insert (f : mframe) (key : Z) (labels : list val) (ins : tb val) : res (oframe * layout) :=
   match M_insert_blocks (mf_blocks f) key ins with
   | Err e => Err e
   | Ok t' => frame_init (mf_index f) (S_insert_at (mf_columns f) key labels) t' (zlen (mf_index f)) (mf_name f)
   end.
-
-Definition S_series_insert (s : oseries) (key : Z) (labels vals : list val) : list val * list val :=
-  (S_insert_at (os_index s) key labels, S_insert_at (os_values s) key vals).
-
-(* =================== bloc assignment (2-D Boolean selector) =================== *)
-(* kmask[j][i] = the key, mask[j][i] = the key restricted to the cells the (labelled) value has, vals[j][i] for
-   column j, row i; SPEC as a relation: labels and name kept, a cell holds vals where the mask is True and its old
-   value elsewhere; a column without any True in the KEY is identical, dtype included *)
-Definition S_frame_bloc_ok (f : oframe) (kmask mask : list (list bool)) (vals : list (list val)) (out : oframe) : bool :=
-  let nr := zlen (of_index f) in
-  let nc := zlen (of_columns f) in
-  vlist_eqb (of_index f) (of_index out) && vlist_eqb (of_columns f) (of_columns out) &&
-  val_eqb (of_name f) (of_name out) && (zlen (of_cols out) =? nc) &&
-  forallb (fun j =>
-    let old := nthz (of_cols f) j (DObj, []) in
-    let new := nthz (of_cols out) j (DObj, []) in
-    let mk := nthz mask j [] in
-    if existsb (fun b : bool => b) (nthz kmask j [])
-    then (zlen (snd new) =? nr) &&
-         forallb (fun i => cell_same (nthz (snd new) i VNone)
-                             (if nthz mk i false then nthz (nthz vals j []) i VNone else nthz (snd old) i VNone)) (zrange nr)
-    else col_eqb old new) (zrange nc).
-
-(* =================== insert, as a relation (the dtype of an inserted, label-aligned column is not fixed) =================== *)
-Definition S_frame_insert_ok (f : oframe) (key : Z) (labels : list val) (ins : list (list val)) (out : oframe) : bool :=
-  let k := Z.to_nat key in
-  let n := length labels in
-  vlist_eqb (of_index f) (of_index out) && val_eqb (of_name f) (of_name out) &&
-  vlist_eqb (S_insert_at (of_columns f) key labels) (of_columns out) &&
-  list_eqb col_eqb (firstn k (of_cols f)) (firstn k (of_cols out)) &&
-  list_eqb (list_eqb cell_same) ins (map snd (firstn n (skipn k (of_cols out)))) &&
-  list_eqb col_eqb (skipn k (of_cols f)) (skipn (k + n) (of_cols out)).
-
-Definition S_series_insert_ok (s : oseries) (key : Z) (labels vals : list val) (out : oseries) : bool :=
-  vlist_eqb (S_insert_at (os_index s) key labels) (os_index out) &&
-  list_eqb cell_same (S_insert_at (os_values s) key vals) (os_values out) && val_eqb (os_name s) (os_name out).
-
-(* Series results up to the dtype / up to the name *)
-Definition oseries_same (a b : oseries) : bool :=
-  vlist_eqb (os_index a) (os_index b) && list_eqb cell_same (os_values a) (os_values b) && val_eqb (os_name a) (os_name b).
-Definition oseries_eqb_noname (a b : oseries) : bool :=
-  vlist_eqb (os_index a) (os_index b) && vlist_eqb (os_values a) (os_values b) && dtype_eqb (os_dtype a) (os_dtype b).
-
-(* =================== kernel-level comparisons =================== *)
-Definition ckey_eqb (a b : ckey) : bool :=
-  match a, b with
-  | CAll, CAll => true
-  | CInt x, CInt y => x =? y
-  | CSlice s, CSlice t => slice_eqb s t
-  | CList l, CList m => list_eqb Z.eqb l m
-  | CMask l, CMask m => list_eqb Bool.eqb l m
-  | _, _ => false
-  end.
-
-Definition targets_eqb : list (Z * slice) -> list (Z * slice) -> bool := list_eqb (pair_eqb Z.eqb slice_eqb).
